@@ -4,6 +4,7 @@ import (
 	"encoding/json"
 	"fmt"
 	"math/rand"
+	"os"
 	"regexp"
 	"strconv"
 	"strings"
@@ -26,6 +27,8 @@ type coreGen struct {
 	inRule    bool     // inside a pattern rule: $ and $index are bound
 	fns       []string // functions that may be called (already generated)
 	nloop     int
+	nmatch    int
+	bound     []string // names bound by the patterns of the match arms around the code being generated
 }
 
 func cn(k string, kv ...any) Node {
@@ -316,6 +319,134 @@ func (g *coreGen) containerStmt(d int) Node {
 	}
 }
 
+// ---- match expressions (spec/JqCore.tla, "match"): literal, name and array patterns; expression and block arms.
+// Names bound by a pattern alias the cells of the subject in the implementation, while the model binds by
+// value: a subject that is a plain variable / element / $ is passed through idf() (a fresh value) unless
+// every arm only reads; bound names are never assigned to.
+
+func (g *coreGen) litPat() Node {
+	switch g.r.Intn(6) {
+	case 0:
+		return cn("plit", "v", map[string]any(cn("str", "v", g.pick("a", "bc", "", "ab", "7"))))
+	case 1:
+		return cn("plit", "v", map[string]any(cn(g.pick("null", "bool"), "v", g.r.Intn(2) == 0)))
+	default:
+		return cn("plit", "v", map[string]any(cn("num", "v", g.r.Intn(8))))
+	}
+}
+
+func (g *coreGen) pattern(d int, names *[]string) Node {
+	switch g.r.Intn(7) {
+	case 0, 1:
+		g.nmatch++
+		n := fmt.Sprintf("m%d", g.nmatch)
+		if g.r.Intn(6) == 0 {
+			n = "_"
+		}
+		*names = append(*names, n)
+		return cn("pid", "n", n)
+	case 2:
+		if d > 0 {
+			k := g.r.Intn(4)
+			items := make([]any, k)
+			for i := range items {
+				items[i] = map[string]any(g.pattern(d-1, names))
+			}
+			return cn("parr", "items", items)
+		}
+		return g.litPat()
+	default:
+		return g.litPat()
+	}
+}
+
+func (g *coreGen) matchExpr(d int) Node {
+	// subject
+	var subj Node
+	direct := false
+	switch g.r.Intn(8) {
+	case 0:
+		subj, direct = cn("var", "n", g.intVar()), true
+	case 1:
+		if g.inRule {
+			subj, direct = cn("dollar"), true
+		} else if !g.inFn {
+			subj, direct = cn("var", "n", g.pick("r0", "r1", "s0", "pv")), true
+		} else {
+			subj = g.anyExpr(1)
+		}
+	case 2:
+		if !g.inFn {
+			subj, direct = cn("idx", "n", g.pick("r0", "r1"), "key", map[string]any(g.arrIndex())), true
+		} else {
+			subj = g.intExpr(1)
+		}
+	case 3:
+		subj = cn("arr", "items", []any{map[string]any(g.intExpr(1)), map[string]any(g.anyExpr(1))})
+	case 4:
+		subj = g.strExpr(1)
+	default:
+		subj = g.intExpr(1)
+	}
+	ncases := 1 + g.r.Intn(3)
+	cases := make([]any, 0, ncases)
+	binds := false
+	impure := false
+	for i := 0; i < ncases; i++ {
+		var names []string
+		npats := 1 + g.r.Intn(2)
+		pats := make([]any, npats)
+		for j := range pats {
+			pats[j] = map[string]any(g.pattern(1, &names))
+		}
+		// a name bound by only one of several alternatives is unset when another one matched: read only
+		// the names of a single-alternative case
+		readable := names
+		if npats > 1 {
+			readable = nil
+		}
+		if len(names) > 0 {
+			binds = true
+		}
+		saved := g.bound
+		g.bound = append(append([]string{}, g.bound...), readable...)
+		var c Node
+		if d > 0 && g.r.Intn(3) == 0 {
+			body := g.block(d-1, 1+g.r.Intn(2))
+			if len(readable) > 0 {
+				args := []any{map[string]any(cn("str", "v", "m"))}
+				for _, n := range readable {
+					args = append(args, map[string]any(cn("var", "n", n)))
+				}
+				body["b"] = append([]any{map[string]any(cn("print", "args", args))}, body["b"].([]any)...)
+			}
+			c = cn("case", "pats", pats, "bk", "block", "b", map[string]any(body))
+			impure = true
+		} else {
+			var e Node
+			switch {
+			case len(readable) > 0 && g.r.Intn(3) > 0:
+				e = cn("bin", "op", g.pick("+", "-", "==", "<"), "l", map[string]any(cn("var", "n", readable[g.r.Intn(len(readable))])), "r", map[string]any(g.num(g.r.Intn(5))))
+			case len(readable) > 0:
+				e = cn("var", "n", readable[0])
+			case g.r.Intn(3) == 0 && len(g.fns) > 0:
+				e = g.call(1)
+				impure = true
+			default:
+				e = g.anyExpr(1)
+				impure = true // may contain a call
+			}
+			c = cn("case", "pats", pats, "bk", "expr", "b", map[string]any(e))
+		}
+		g.bound = saved
+		cases = append(cases, map[string]any(c))
+	}
+	if direct && binds && impure {
+		subj = cn("call", "f", "idf", "args", []any{map[string]any(subj)})
+	}
+	return cn("match", "e", map[string]any(subj), "cases", cases)
+}
+
 func (g *coreGen) block(d, n int) Node {
 	b := make([]any, 0, n)
 	for i := 0; i < n; i++ {
@@ -369,6 +500,21 @@ func (g *coreGen) stmt(d int) Node {
 	}
 	if !g.inFn && g.r.Intn(4) == 0 {
 		return g.containerStmt(d)
+	}
+	if g.r.Intn(7) == 0 {
+		m := g.matchExpr(d)
+		switch g.r.Intn(3) {
+		case 0:
+			return cn("expr", "e", map[string]any(m))
+		case 1:
+			return cn("print", "args", []any{map[string]any(cn("str", "v", "mv")), map[string]any(m)})
+		default:
+			t := g.assignTarget()
+			if t == "s0r" {
+				t = "g2"
+			}
+			return cn("expr", "e", map[string]any(cn("asg", "n", t, "op", "=", "e", map[string]any(m))))
+		}
 	}
 	if d <= 0 {
 		return simple()
@@ -489,9 +635,8 @@ func (g *coreGen) program() Node {
 	for i := 0; i < n; i++ {
 		stmts = append(stmts, map[string]any(g.stmt(3)))
 	}
-	if fns == nil {
-		fns = []any{}
-	}
+	fns = append(fns, map[string]any(cn("fn", "name", "idf", "params", []any{"x"}, "body",
+		map[string]any(cn("block", "b", []any{map[string]any(cn("return", "e", map[string]any(cn("var", "n", "x"))))})))))
 	// pattern rules over the input array: patterns and bodies use $ and $index
 	rules := []any{}
 	g.inRule = true
@@ -581,6 +726,20 @@ func coreExpr(e Node) string {
 			parts = append(parts, strconv.Quote(k.(string))+": "+coreExpr(vals[i]))
 		}
 		return "{" + strings.Join(parts, ", ") + "}"
+	case "match":
+		parts := []string{}
+		for _, c := range nlist(e, "cases") {
+			pats := []string{}
+			for _, p := range nlist(c, "pats") {
+				pats = append(pats, corePattern(p))
+			}
+			if nstr(c, "bk") == "block" {
+				parts = append(parts, strings.Join(pats, ", ")+" => "+strings.TrimLeft(coreStmt(nnode(c, "b"), 1), " "))
+			} else {
+				parts = append(parts, strings.Join(pats, ", ")+" => "+coreExpr(nnode(c, "b")))
+			}
+		}
+		return "match (" + coreExpr(nnode(e, "e")) + ") { " + strings.Join(parts, ", ") + " }"
 	case "idx":
 		return nstr(e, "n") + "[" + coreExpr(nnode(e, "key")) + "]"
 	case "asgidx":
@@ -602,6 +761,20 @@ func coreExpr(e Node) string {
 		return nstr(e, "op") + nstr(e, "n")
 	}
 	return "null"
+}
+
+func corePattern(p Node) string {
+	switch nstr(p, "k") {
+	case "pid":
+		return nstr(p, "n")
+	case "parr":
+		parts := []string{}
+		for _, x := range nlist(p, "items") {
+			parts = append(parts, corePattern(x))
+		}
+		return "[" + strings.Join(parts, ", ") + "]"
+	}
+	return coreExpr(nnode(p, "v"))
 }
 
 func coreStmt(s Node, depth int) string {
@@ -746,6 +919,9 @@ func checkCore(c *Ctx, n int, seedMix int64) {
 		progs[i] = decodeNode(raw)
 		// the pre-increment rendering uses a scratch variable pv: harmless to the model (not printed)
 		jobs[i] = Job{Kind: "run", Prog: []byte(coreProgramText(progs[i])), Files: []FileIn{{Name: "in.json", Data: []byte(coreInput(progs[i]))}}, Budget: 300000}
+		if dir := os.Getenv("VERIF_DUMP_CORE"); dir != "" { // development aid: the generated programs as files
+			os.WriteFile(fmt.Sprintf("%s/core%04d.jqawk", dir, i), jobs[i].Prog, 0o644)
+		}
 	}
 	var sb strings.Builder
 	var idx []int
